@@ -932,6 +932,22 @@ def single_assign_aliases(fn) -> dict:
     return {k: v for k, v in vals.items() if counts.get(k) == 1 and k not in params}
 
 
+def copy_ast(node):
+    """Structural copy of an AST (fields and positions only; analysis back-links such as _parent are not followed)."""
+    if isinstance(node, list):
+        return [copy_ast(x) for x in node]
+    if not isinstance(node, ast.AST):
+        return node
+    new = node.__class__()
+    for f in node._fields:
+        if hasattr(node, f):
+            setattr(new, f, copy_ast(getattr(node, f)))
+    for a in ("lineno", "col_offset", "end_lineno", "end_col_offset"):
+        if hasattr(node, a):
+            setattr(new, a, getattr(node, a))
+    return new
+
+
 def expand_aliases(expr, aliases: dict, depth: int = 0):
     """Copy of `expr` with single-assignment local names replaced by their defining expressions (transitively)."""
     import copy
@@ -942,7 +958,7 @@ def expand_aliases(expr, aliases: dict, depth: int = 0):
                 return expand_aliases(aliases[node.id], aliases, depth + 1)
             return node
 
-    return T().visit(copy.deepcopy(expr))
+    return T().visit(copy_ast(expr))
 
 
 def enclosing_conditions_expanded(node, fn):
@@ -1035,3 +1051,30 @@ def dict_bindings(fn, expr):
         if not absorb(expr):
             bases.append(expr)
     return bases, bindings, copied
+
+
+def expr_conditions(node):
+    """Conditions guarding the evaluation of an expression inside its statement: [(test expr, polarity)] from enclosing
+    conditional expressions (a if T else b), short-circuit operators (x and <node>, x or <node>) and comprehension ifs."""
+    out = []
+    child = node
+    n = getattr(node, "_parent", None)
+    while n is not None and not isinstance(n, ast.stmt):
+        if isinstance(n, ast.IfExp):
+            if child is n.body:
+                out.append((n.test, True))
+            elif child is n.orelse:
+                out.append((n.test, False))
+        elif isinstance(n, ast.BoolOp):
+            idx = next((i for i, v in enumerate(n.values) if v is child), None)
+            if idx:
+                for prev in n.values[:idx]:
+                    out.append((prev, isinstance(n.op, ast.And)))
+        elif isinstance(n, (ast.ListComp, ast.GeneratorExp, ast.SetComp, ast.DictComp)):
+            if child is getattr(n, "elt", None) or child is getattr(n, "key", None) or child is getattr(n, "value", None):
+                for g in n.generators:
+                    for c in g.ifs:
+                        out.append((c, True))
+        child = n
+        n = getattr(n, "_parent", None)
+    return out
